@@ -1173,6 +1173,10 @@ func (env *specEnv) eval(x ast.Expr) (T, error) {
 				if _, elS := at.Elem().Underlying().(*types.Struct); elS {
 					return T{f.eaTerm(a.S, k.S), "Int", types.NewPointer(at.Elem())}, nil
 				}
+				// p[k] for p *[N]T: the element heap keyed by the array's address (as IndexAddr does)
+				if h, hs := f.elemHeap(at.Elem()); h != "" {
+					return T{"(select (select " + e.H(env.cur, h, hs) + " " + a.S + ") " + k.S + ")", e.sortOf(at.Elem()), at.Elem()}, nil
+				}
 			}
 		}
 		return T{}, fmt.Errorf("cannot index %s", a.Go)
